@@ -292,6 +292,193 @@ def foldPrecCert (cand : List (List α) → List (List α)) (removeMean : Bool) 
 
 end cert
 
+/-! ### reuse sessions: one dataset object, several successive calls (round 4)
+
+What the caller holds between calls — the dataset object (rows with two condition descriptors and a
+fold descriptor) and the precision objects — is threaded explicitly through the calls.  The effect
+of one call on it is modelled *as the source performs it*:
+
+* `noise = _check_noise(noise, …)` stores every entry of a list / dict precision back into the
+  caller's container (`noise[i] = _check_noise(noise[i], …)`): `checkNoiseRestore`, the identity iff
+  the generated leaf `checkNoiseIdentity` says that `_check_noise` returns its argument itself;
+* the default fold descriptor is stored into, and `sort_by(descriptor)` reorders, the *working
+  object*: the caller's own object unless the generated leaves `crossWorkIsCopy` /
+  `poissonWorkIsCopy` say that it is an unconditional `deepcopy(dataset)`;
+* any other statement of the anchored functions that can leave something behind (store into a
+  parameter, module-level memo, decorator … counted by the generated leaf `inputWrites`) makes the
+  content unknown (`none`): the model fails closed.
+
+`Props.C02.session_calls_independent` proves, by induction over the step list, that a session
+returns at every call the value of the stand-alone call on the content of that moment, and that the
+content is changed by the caller's own `sort_by` steps only. -/
+
+section session
+variable {L F α : Type} [DecidableEq L] [LT L] [DecidableLT L]
+  [DecidableEq F] [LT F] [DecidableLT F]
+  [Add α] [Sub α] [Mul α] [Div α] [Neg α] [Zero α] [One α] [NatCast α]
+  [LT α] [DecidableLT α] [LE α] [DecidableLE α] [Max α] [Min α] [DecidableEq α]
+
+/-- one observation of a session dataset: two condition descriptors, a fold descriptor, a pattern -/
+structure SRow (L F α : Type) where
+  c1 : L
+  c2 : L
+  fold : F
+  x : Nat → α
+
+/-- what the caller holds: the dataset object's rows and the precision objects -/
+structure Mem (L F α : Type) where
+  rows : List (SRow L F α)
+  precs : List (List (List α))
+
+/-- which precision a call passes -/
+inductive NoiseSel where
+  | none
+  | matrix (i : Nat)      -- the i-th precision object
+  | perFold               -- the whole list: one precision per fold
+  deriving DecidableEq
+
+/-- the options of one `calc_rdm(method='crossnobis'|'poisson_cv')` call -/
+structure Call (α : Type) where
+  poisson : Bool
+  useC2 : Bool
+  defaultFolds : Bool
+  removeMean : Bool
+  noise : NoiseSel
+  lam0 : α
+  w : α
+
+def SRow.label (useC2 : Bool) (r : SRow L F α) : L := if useC2 then r.c2 else r.c1
+
+/-- the estimator a call dispatches to, on a dataset with fold labels of any type `G` -/
+def estimate {G : Type} [DecidableEq G] [LT G] [DecidableLT G]
+    (cand : List (List α) → List (List α)) (lg : α → α) (P : Nat) (c : Call α)
+    (precs : List (List (List α))) (D : List (Obs L G α)) : Option (List ((L × L) × α)) :=
+  if c.poisson then some (poissonCvAlgo lg c.lam0 c.w P D)
+  else match c.noise with
+    | .none => some (crossnobisAlgo c.removeMean P eye D)
+    | .matrix i =>
+      match precs[i]? with
+      | some N => if noiseShapeOk P N then some (crossnobisAlgo c.removeMean P (matFn N) D) else none
+      | none => none
+    | .perFold => foldPrecCert cand c.removeMean P precs D
+
+/-- the value of a stand-alone call on content `m` (`none` = the call raises) -/
+def Call.value (cand : List (List α) → List (List α)) (lg : α → α) (P : Nat) (c : Call α)
+    (m : Mem L F α) : Option (List ((L × L) × α)) :=
+  if c.defaultFolds then
+    match defaultCv (m.rows.map (SRow.label c.useC2)) with
+    | none => none
+    | some fs => estimate cand lg P c m.precs
+        ((m.rows.zip fs).map (fun rf => (⟨rf.1.label c.useC2, rf.2, rf.1.x⟩ : Obs L Nat α)))
+  else
+    estimate cand lg P c m.precs
+      (m.rows.map (fun r => (⟨r.label c.useC2, r.fold, r.x⟩ : Obs L F α)))
+
+/-- `noise[i] = _check_noise(noise[i], n_channel)`: what is stored back into the caller's container -/
+def checkNoiseRestore (N : List (List α)) : List (List α) :=
+  if Rsa.Gen.C02.checkNoiseIdentity = 1 then N else []
+
+/-- `Dataset.sort_by` on session rows: stable sort by the chosen descriptor (0: `c1`, 1: `c2`,
+    otherwise the fold descriptor) -/
+def sortRows (key : Nat) (rows : List (SRow L F α)) : List (SRow L F α) :=
+  if key = 0 then rows.mergeSort (fun r s => leB r.c1 s.c1)
+  else if key = 1 then rows.mergeSort (fun r s => leB r.c2 s.c2)
+  else rows.mergeSort (fun r s => leB r.fold s.fold)
+
+/-- what the caller holds after the call, as the source performs it (`none` = unknown) -/
+def Call.after (c : Call α) (m : Mem L F α) : Option (Mem L F α) :=
+  if Rsa.Gen.C02.inputWrites = 0 then
+    some
+      { rows :=
+          if (if c.poisson then Rsa.Gen.C02.poissonWorkIsCopy else Rsa.Gen.C02.crossWorkIsCopy) = 1
+          then m.rows                                    -- sort_by hits the deep copy
+          else sortRows (if c.useC2 then 1 else 0) m.rows  -- sort_by hits the caller's object
+        precs :=
+          if c.poisson then m.precs
+          else match c.noise with
+            | .perFold => m.precs.map checkNoiseRestore
+            | _ => m.precs }
+  else none
+
+/-- a step of a session: a call, or the caller's own `ds.sort_by(key)` -/
+inductive Step (α : Type) where
+  | call (c : Call α)
+  | sort (key : Nat)
+
+/-- the session as executed: the content is threaded through the calls; `none` as soon as the
+    content is unknown -/
+def runSession (cand : List (List α) → List (List α)) (lg : α → α) (P : Nat) :
+    List (Step α) → Mem L F α → Option (List (Option (List ((L × L) × α))) × Mem L F α)
+  | [], m => some ([], m)
+  | .call c :: ss, m =>
+    match c.after m with
+    | none => none
+    | some m' =>
+      match runSession cand lg P ss m' with
+      | none => none
+      | some (vs, mf) => some (c.value cand lg P m :: vs, mf)
+  | .sort key :: ss, m => runSession cand lg P ss { m with rows := sortRows key m.rows }
+
+/-- the content after the caller's own sorts alone -/
+def sortsOnly : List (Step α) → Mem L F α → Mem L F α
+  | [], m => m
+  | .call _ :: ss, m => sortsOnly ss m
+  | .sort key :: ss, m => sortsOnly ss { m with rows := sortRows key m.rows }
+
+/-- the stand-alone value of every call on the content of its moment (sorts applied, calls ignored) -/
+def valuesAlong (cand : List (List α) → List (List α)) (lg : α → α) (P : Nat) :
+    List (Step α) → Mem L F α → List (Option (List ((L × L) × α)))
+  | [], _ => []
+  | .call c :: ss, m => c.value cand lg P m :: valuesAlong cand lg P ss m
+  | .sort key :: ss, m => valuesAlong cand lg P ss { m with rows := sortRows key m.rows }
+
+/-! several dataset objects held by the caller; a step addresses one of them (a step that names an
+    object that does not exist is skipped and yields no value) -/
+
+/-- the caller's own `sort_by` on one object -/
+def sortMem (key : Nat) (m : Mem L F α) : Mem L F α := { m with rows := sortRows key m.rows }
+
+def runStore (cand : List (List α) → List (List α)) (lg : α → α) (P : Nat) :
+    List (Nat × Step α) → List (Mem L F α) →
+      Option (List (Option (List ((L × L) × α))) × List (Mem L F α))
+  | [], ms => some ([], ms)
+  | (k, .call c) :: ss, ms =>
+    match ms[k]? with
+    | none => (runStore cand lg P ss ms).map (fun r => (none :: r.1, r.2))
+    | some m =>
+      match c.after m with
+      | none => none
+      | some m' =>
+        (runStore cand lg P ss (ms.set k m')).map (fun r => (c.value cand lg P m :: r.1, r.2))
+  | (k, .sort key) :: ss, ms =>
+    match ms[k]? with
+    | none => runStore cand lg P ss ms
+    | some m => runStore cand lg P ss (ms.set k (sortMem key m))
+
+/-- the objects after the caller's own sorts alone -/
+def sortsStore : List (Nat × Step α) → List (Mem L F α) → List (Mem L F α)
+  | [], ms => ms
+  | (_, .call _) :: ss, ms => sortsStore ss ms
+  | (k, .sort key) :: ss, ms =>
+    match ms[k]? with
+    | none => sortsStore ss ms
+    | some m => sortsStore ss (ms.set k (sortMem key m))
+
+/-- the stand-alone value of every call on the content its object has at that moment -/
+def valuesStore (cand : List (List α) → List (List α)) (lg : α → α) (P : Nat) :
+    List (Nat × Step α) → List (Mem L F α) → List (Option (List ((L × L) × α)))
+  | [], _ => []
+  | (k, .call c) :: ss, ms =>
+    (match ms[k]? with
+     | none => none
+     | some m => c.value cand lg P m) :: valuesStore cand lg P ss ms
+  | (k, .sort key) :: ss, ms =>
+    match ms[k]? with
+    | none => valuesStore cand lg P ss ms
+    | some m => valuesStore cand lg P ss (ms.set k (sortMem key m))
+
+end session
+
 /-! ### the specification -/
 
 section spec
